@@ -1905,13 +1905,15 @@ class unyt_array(np.ndarray):
             if u.dimensions is angle and ufunc in trigonometric_operators:
                 # ensure np.sin(90*degrees) works as expected
                 inp = inp.in_units("radian").v
-            # evaluate the ufunc
-            out_arr = func(np.asarray(inp), out=out_func, **kwargs)
+            # get unit of result first: the unit rule may refuse (roots and
+            # powers of offset units), and a refused call must not have written
+            # to its out= target
             if ufunc in (multiply, divide) and method == "reduce":
                 mul, unit = _apply_power_mapping(ufunc, u, inp.size, inp.shape, kwargs)
             else:
-                # get unit of result
                 mul, unit = self._ufunc_registry[ufunc](u)
+            # evaluate the ufunc
+            out_arr = func(np.asarray(inp), out=out_func, **kwargs)
             # use type(self) here so we can support user-defined
             # subclasses of unyt_array
             ret_class = type(self)
